@@ -73,3 +73,14 @@ mod freeze {
         is_freeze::<Descendants<'a, T>>();
     }
 }
+
+/// par_iter() is available for every shareable payload (T: Sync is all it may ask for) and its items
+/// are plain shared references
+#[cfg(feature = "par_iter")]
+pub fn par_iter_whenever_t_is_sync<T: Sync>(arena: &Arena<T>) -> usize {
+    use rayon::prelude::*;
+    fn takes_refs<'a, T: Sync + 'a>(it: impl ParallelIterator<Item = &'a Node<T>>) -> usize {
+        it.count()
+    }
+    takes_refs(arena.par_iter())
+}
